@@ -160,23 +160,27 @@ def spy_compare_kwargs(det, X, Y):
     return seen
 
 
-def check_params(ck, name, spec, setattr_value=None, collect=None):
+def check_params(ck, name, spec, setattr_value=None, collect=None, setattr_name="num_bins"):
     """One constructor call (optionally followed by `det.num_bins = v`)."""
     n, m = 12, 9
     rs = np.random.RandomState(7)
     X, Y = rs.normal(size=n), rs.normal(0.5, 1.0, size=m)
     cn = Canon()
     user = build_args(name, spec, n, m)
-    detail = dict(replay_kind="params", detector=name, spec=spec, setattr_value=setattr_value)
+    detail = dict(replay_kind="params", detector=name, spec=spec, setattr_value=setattr_value, setattr_name=setattr_name)
+    new_value = None
+    if setattr_value is not None:
+        new_value = build_args(name, {setattr_name: setattr_value}, n, m)
+        (attr_name, new_value), = new_value.items()
     try:
         det = det_class(name)(**user)
         if setattr_value is not None:
-            det.num_bins = setattr_value
+            setattr(det, attr_name, new_value)
         impl = ("ok", cn.canon_dict(det.statistical_kwargs), cn.canon_dict(spy_compare_kwargs(det, X, Y)))
     except (ValueError, TypeError) as e:
         impl = ("raise", type(e).__name__)
-    ck.case(dict(kind="params", detector=name, spec=spec, setattr=setattr_value, outcome=impl[0]),
-            nontrivial=bool(spec) or setattr_value is not None, key=repr((name, spec, setattr_value)))
+    ck.case(dict(kind="params", detector=name, spec=spec, setattr=[setattr_name, setattr_value] if setattr_value is not None else None, outcome=impl[0]),
+            nontrivial=bool(spec) or setattr_value is not None, key=repr((name, spec, setattr_name, setattr_value)))
     ck.count("params_" + impl[0])
     if impl[0] == "ok":
         skw, ckw = impl[1], dict(impl[2])
@@ -194,7 +198,7 @@ def check_params(ck, name, spec, setattr_value=None, collect=None):
         if setattr_value is None:
             body = f"match construct {d} {u} with Ok o => inl (o_skw o, compare_kwargs o []) | Raise e => inr e end"
         else:
-            body = (f"match construct {d} {u} with Ok o => match assign_num_bins o ({cn.coq(cn.tok(setattr_value))}) with "
+            body = (f"match construct {d} {u} with Ok o => match assign_attr o \"{attr_name}\"%string ({cn.coq(cn.tok(new_value))}) with "
                     f"Ok o' => inl (o_skw o', compare_kwargs o' []) | Raise e => inr e end | Raise e => inr e end")
         collect.append((body, impl, detail))
 
@@ -662,6 +666,10 @@ def run(ck: Check):
             for v in ([5, 17] if not thorough else [1, 2, 5, 17, 10]):
                 check_params(ck, name, {}, setattr_value=v, collect=collected)
             check_params(ck, name, {"num_bins": 5}, setattr_value=0, collect=collected)
+        if name == "MMD":
+            check_params(ck, name, {}, setattr_value=3.0, setattr_name="kernel_sigma", collect=collected)
+            check_params(ck, name, {"chunk_size": 2}, setattr_value=3, setattr_name="chunk_size", collect=collected)
+            check_params(ck, name, {}, setattr_value=0, setattr_name="chunk_size", collect=collected)
     corr_params(ck, collected)
 
     # ---- B
@@ -758,7 +766,7 @@ def replay(obj):
     ck.proof = dict(ok=True, theorems=[], axioms=[], log="")
     rk = obj.get("replay_kind")
     if rk == "params":
-        check_params(ck, obj["detector"], obj["spec"], setattr_value=obj.get("setattr_value"))
+        check_params(ck, obj["detector"], obj["spec"], setattr_value=obj.get("setattr_value"), setattr_name=obj.get("setattr_name", "num_bins"))
     elif rk == "e2e":
         check_e2e(ck, obj["detector"], obj["spec"], np.array(obj["X_ref"], dtype=float), np.array(obj["X_test"], dtype=float), obj["cfg"], obj.get("data_kind"))
     elif rk == "pvalue":
